@@ -115,6 +115,8 @@ def eval_doc(case, preload=False):
                 cl.add("object-construction-tag:dispatched")
             if not cons and rest.startswith("name:"):
                 cl.add("name-tag:dispatched")
+    only_object_tags = all(tag.startswith(safety.PY) and any(tag[len(safety.PY):].startswith(f) for f in safety.OBJECT_FAMILIES)
+                           for ctx, cons, tag in positions) and not __import__("re").search(r"!!(int|float|bool|timestamp|binary|null) |!!python/(int|long|float|complex|bool)", text)
     if any((not cons) and tag.startswith("!app-d") for ctx, cons, tag in positions):
         # the application's own constructor (registered on the default loaders by the warm-up) builds that node without
         # looking at its children: what lies below it is not dispatched
@@ -163,6 +165,11 @@ def eval_doc(case, preload=False):
         mon.problems = []
         if exc is not None:
             cl.add("outcome:%s" % ("YAMLError" if isinstance(exc, yaml.YAMLError) else type(exc).__name__))
+            if must_reject and only_object_tags and not isinstance(exc, (yaml.YAMLError, RecursionError)):
+                # every python/* tag of this document is an object-construction tag: the only thing the loader may do with the
+                # document is to reject it, and the rejection is a constructor error whatever the name looks like
+                failures.append(Failure("object-construction-tag-not-rejected-with-a-yaml-error:%s:%s" % (lname, exc_key(exc)),
+                                        "%s\ntext=%r" % (exc_msg(exc), text[:300])))
             continue
         cl.add("outcome:loaded")
         bad = walk_full_result(result, allowed_ids | {id(mon.canary.NATIVE_GEN)})
